@@ -135,6 +135,7 @@ def setup(ctx, model, reverse_ties=False):
                  "numpy.allclose": allclose})
     seeds = {("global", "cij.util:c_"): LibV("cij.c_"), (LONG, "__new__"): nonshear("long"), (OFFD, "__new__"): nonshear("offd")}
     ev = Ev(model, seeds, intr, ctx=ctx)
+    ev.generic_equality = True          # e1, e2, e3 are independent symbols: strain triples in general position
     return ev, graphs
 
 
